@@ -472,7 +472,11 @@ func c28Gen(r *rand.Rand, tier string, i int) any {
 			n = 20 + r.Intn(40)
 		}
 		for k := 0; k < n; k++ {
-			in.Reqs = append(in.Reqs, c28GenReq(r))
+			if r.Intn(3) == 0 {
+				in.Reqs = append(in.Reqs, c28GenGrpc(r))
+			} else {
+				in.Reqs = append(in.Reqs, c28GenReq(r))
+			}
 		}
 		return in
 	}
@@ -777,6 +781,20 @@ func c28Child(raw json.RawMessage) (Case, error) {
 		var hops []crossHop
 		cfg := crossDefaultCfg()
 		cfg.QueryAuthToken = "tok"
+		grpcAddr := ""
+		for _, q := range in.Reqs {
+			if q.Router == "grpc" {
+				grpcAddr = c28FreePort()
+			}
+		}
+		if grpcAddr != "" {
+			on := config.DefaultTrue(true)
+			cfg.GetGRPCEnabledVal, cfg.GetGRPCListenAddrVal = true, grpcAddr
+			cfg.GetGRPCServerParameters = config.GRPCServerParameters{Enabled: &on, ListenAddr: grpcAddr,
+				MaxConnectionIdle: config.Duration(time.Minute), MaxConnectionAge: config.Duration(3 * time.Minute),
+				MaxConnectionAgeGrace: config.Duration(time.Minute), KeepAlive: config.Duration(time.Minute), KeepAliveTimeout: config.Duration(20 * time.Second),
+				MaxSendMsgSize: config.MemorySize(15 << 20), MaxRecvMsgSize: config.MemorySize(15 << 20)}
+		}
 		cfg.GetSamplerTypeVal = &config.DeterministicSamplerConfig{SampleRate: 1}
 		n, err := crossStartNode(crossNodeOpts{Addr: "http://node-a:8081", PeerList: []string{"http://node-a:8081", "http://node-b:8081"}, Net: mn, Cfg: cfg,
 			Collector:  &crossRecCollector{Node: "a", mu: &mu, log: &col},
@@ -786,8 +804,19 @@ func c28Child(raw json.RawMessage) (Case, error) {
 			return Case{}, err
 		}
 		defer n.Stop()
+		var gc *c28GrpcClient
+		if grpcAddr != "" {
+			if gc, err = c28DialGrpc(grpcAddr); err != nil {
+				return Case{}, err
+			}
+			defer gc.Close()
+		}
 		for _, q := range in.Reqs {
 			body, _ := base64.StdEncoding.DecodeString(q.Body)
+			if q.Router == "grpc" {
+				res.Statuses = append(res.Statuses, gc.Call(q.Path, q.Hdr, body))
+				continue
+			}
 			var req = httptest.NewRequest(q.Method, "http://refinery.test"+c28SafePath(q.Path), bytes.NewReader(body))
 			for k, v := range q.Hdr {
 				req.Header.Set(k, v)
